@@ -247,11 +247,11 @@ def run(ctx):
     total = 0
     first = None
     if os.environ.get("VERIF_C11_ONLY") == "sweep":      # development aid: only the cleanup-task stages
-        for target in ("memc", "diskc"):
+        for target in ([] if os.environ.get("VERIF_C11_TARGETS") else ["memc", "diskc"]):
             for fam in sweep_families(ctx.quick):
                 total += mem_family(ctx, fam, kd, target=target)[0]
         pinned_designs(ctx)
-        for target in ("memc", "diskc"):
+        for target in (os.environ.get("VERIF_C11_TARGETS") or "memc diskc").split():
             total += random_runs(ctx, target, 1500, 3, 3, 2, kd, f"s332{target}")
             total += random_runs(ctx, target, 150, 4, 20, 2, kd, f"stress_{target}2")
         ctx.cov["traces_validated_against_impl"] = total
@@ -277,9 +277,10 @@ def run(ctx):
     # reachable this way; 4 tasks x 20 operations.
     nstress = 150 if ctx.quick else 700
     jobs = [("mem", nrand, 3, 3, 2, "m332"), ("mem", nrand, 2, 3, 1, "m231"), ("disk", nrand, 2, 2, 2, "d222"), ("disk", nrand // 2, 3, 2, 1, "d321"),
-            ("diskc", nrand // 2, 3, 3, 2, "s332"), ("memc", nrand // 2, 3, 3, 2, "c332"), ("dyn", nrand // 2, 3, 2, 2, "y322"), ("dyn", nrand // 4, 2, 3, 1, "y231")]
+            ("diskc", nrand // 2, 3, 3, 2, "s332"), ("memc", nrand // 2, 3, 3, 2, "c332"),
+            ("ml", nrand // 2, 3, 3, 2, "l332"), ("ml", nrand // 4, 2, 3, 1, "l231"), ("proto", nrand // 4, 3, 3, 2, "p332"), ("protod", nrand // 4, 3, 3, 2, "q332"), ("dyn", nrand // 2, 3, 2, 2, "y322"), ("dyn", nrand // 4, 2, 3, 1, "y231")]
     jobs += [(target, nstress, 4, 20, keys, f"stress_{target}{keys}")
-             for target, keys in [("mem", 2), ("disk", 1), ("disk", 2), ("diskc", 2), ("memc", 2), ("dyn", 2), ("dyn", 3)]]
+             for target, keys in [("mem", 2), ("disk", 1), ("disk", 2), ("diskc", 2), ("memc", 2), ("ml", 2), ("proto", 2), ("protod", 1), ("dyn", 2), ("dyn", 3)]]
     total += random_batch(ctx, jobs, kd)
     ctx.cov["traces_validated_against_impl"] = total
     ctx.cov["evaluations"] = total
